@@ -1,7 +1,7 @@
 (* C03 — property theorems only.  Each is closed by [exact <lemma>] and followed by
    Print Assumptions.  [vle cf orc sp st] is VLE.__call__ with specification [sp] on stream [st]
    for the package [cf], with every numerical solver and property model inside the record [orc]. *)
-From V Require Import Common.NumFacts C03.Model C03.ModelVlle C03.Proofs.
+From V Require Import Common.NumFacts C03.Model C03.ModelVlle C03.ModelHist C03.Proofs.
 Open Scope Q_scope.
 
 (* for every oracle: the per-chemical total over all phases is unchanged, and so are the shape
@@ -92,6 +92,20 @@ Theorem C03_sle_H_chemical_conserve : forall j H Tm Hl Hs Ts s s',
   nthq (s_l s') j + nthq (s_s s') j == nthq (s_l s) j + nthq (s_s s) j.
 Proof. exact sle_H_chemical_lemma. Qed.
 Print Assumptions C03_sle_H_chemical_conserve.
+
+(* SLE on a persistent object: for EVERY state of the fields that survive a call (_nonzero, _index, _chemical,
+   _mol_solute -- i.e. after any history of earlier calls and outside changes of the flows), a call moves only the
+   solute and keeps its total; also when it raises *)
+Theorem C03_sle_history_call_conserve : forall islle j T Tm x st o st' o' e,
+  (j < length (s_l st))%nat -> length (s_l st) = length (s_s st) ->
+  sle_call_T islle j T Tm x (st, o) = ((st', o'), e) -> sle_same j st st'.
+Proof. exact sle_call_T_conserve. Qed.
+Print Assumptions C03_sle_history_call_conserve.
+Theorem C03_sle_history_given_conserve : forall j T x st o st' o' e,
+  (j < length (s_l st))%nat -> length (s_l st) = length (s_s st) ->
+  sle_call_given j T x (st, o) = ((st', o'), e) -> sle_same j st st'.
+Proof. exact sle_call_given_conserve. Qed.
+Print Assumptions C03_sle_history_given_conserve.
 
 (* non-vacuity: a two-phase result with a gas-only and a liquid-only chemical, adversarial raw v *)
 Definition cf4 := mkcfg [KVle; KVle; KLight; KHeavy] [0; 0; 0; 2] [18; 46; 28; 58].
